@@ -22,6 +22,8 @@ Definition strip_ws_f (l : list nd) := filter (fun n => negb (is_ws_f n)) l.
 Fixpoint strip_lead_f (l : list nd) := match l with n :: r => if is_ws_f n then strip_lead_f r else l | [] => [] end.
 Definition strip_lt_f (l : list nd) := rev (strip_lead_f (rev (strip_lead_f l))).
 
+(* the sink of an expression attribute, as writeExpressionAttribute chooses it from (element, attribute name);
+   cls: class expressions are hoisted only on ordinary elements (writeElement), not on raw/script elements *)
 Fixpoint to_fattr (fuel : nat) (cls : bool) (elem : bytes) (a : attr) : option fattr :=
   match fuel with O => None | S f =>
   match a with
@@ -29,18 +31,22 @@ Fixpoint to_fattr (fuel : nat) (cls : bool) (elem : bytes) (a : attr) : option f
   | AConst n v => if name_ok n then Some (FConst n v) else None
   | ABoolExpr n e => if name_ok n then Some (FBoolExpr n e) else None
   | AExpr n e =>
-      if negb (name_ok n) || zero_range e then None
+      if negb (name_ok n) || zero_range e || negb (Bool.eqb (is_script_attr n) (is_script_attr (hesc n))) then None
       else if beq (hesc n) (bs "class") then (if cls then Some (FClass n e) else None)
-      else if url_sink elem n || is_script_attr n || is_script_attr (hesc n) || beq n (bs "style") then None
+      else if url_sink elem n then Some (FUrl n e)
+      else if is_script_attr n then Some (FScript n e)
+      else if beq n (bs "style") then Some (FStyle n e)
       else Some (FExpr n e)
-  | ASpread _ => None
+  | ASpread e => Some (FSpread e)
   | ACond e th el =>
       match opt_list (map (to_fattr f cls elem) th), opt_list (map (to_fattr f cls elem) el) with
       | Some a, Some b => Some (FCond e a b) | _, _ => None end
   end end.
+Definition to_jpart (p : spart) : jpart :=
+  match p with Ast.SJs v => JText v | Ast.SGo e tr inside => JGo e tr inside end.
 
 Section ToFrag.
-Variable is_templ : bytes -> bool.      (* names of the templates of the file *)
+Variable call_ok : bytes -> bool.       (* call expressions whose callee the fragment knows: templates of the file, opaque hand-written components *)
 Fixpoint to_frag (fuel : nat) (n : node) : option nd :=
   match fuel with O => None | S f =>
   let conv := fun l => opt_list (map (to_frag f) l) in
@@ -59,12 +65,16 @@ Fixpoint to_frag (fuel : nat) (n : node) : option nd :=
   | NRaw name attrs c =>
       if negb (name_ok name) then None else
       option_map (fun a => Raw name a c) (opt_list (map (to_fattr 40 false name) attrs))
-  | NScript _ _ => None
+  | NScript attrs parts =>
+      option_map (fun a => Script a (map to_jpart parts)) (opt_list (map (to_fattr 40 false (bs "script")) attrs))
   | NGoComment => Some GoComment
   | NHtmlComment c => Some (Comment c)
-  | NCallT e => if is_templ (callee_name (e_val e)) then Some (Call e) else None
-  | NCall e ch => match ch with [] => if is_templ (callee_name (e_val e)) then Some (Call e) else None | _ => None end
-  | NChildren => None
+  | NCallT e => if call_ok (e_val e) then Some (Call e) else None
+  | NCall e ch =>
+      if call_ok (e_val e) then
+        match ch with [] => Some (Call e) | _ => option_map (fun c => CallB e (strip_lt_f c)) (conv ch) end
+      else None
+  | NChildren => Some Children
   | NIf e th elifs el =>
       match conv th, cases elifs, conv el with
       | Some th', Some ei', Some el' => Some (If e (strip_lt_f th') ei' (negb (is_nil el)) (strip_lt_f el'))
@@ -89,7 +99,10 @@ Fixpoint pstmt (lvl : nat) (s : stmt) {struct s} : PM :=
   match s with
   | SLit a => lift (plit a)
   | SExpr e => lift (string_expr lvl e)
-  | SAttrV elem n e => lift (attr_value lvl elem n e)
+  | SAttrV _ elem n e => lift (attr_value lvl elem n e)
+  | SSpread e => lift (write_attrs 1 lvl [] [ASpread e])
+  | SScriptHoist es => lift (element_script lvl (map (fun e => AExpr (bs "onclick") e) es))
+  | SJs inside e => lift (script_part lvl (Ast.SGo e [] inside))
   | SClassHoist e => fun st =>
       let '(q, g) := st in
       let '(a', g') := css_attrs 50 lvl [AExpr class_attr_name e] g in
@@ -99,7 +112,7 @@ Fixpoint pstmt (lvl : nat) (s : stmt) {struct s} : PM :=
       match q with
       | se :: q' => (q', attr_value lvl [] class_attr_name se g)
       | [] => (q, wrs "<<class value without a hoisted variable>>" g) end
-  | SGo e => lift (wie lvl e (e_val e ++ nlb))
+  | IrFrag.SGo e => lift (wie lvl e (e_val e ++ nlb))
   | SIf c th elifs he el =>
       pseq (lift (wis lvl "if " ;; wre c ;; wrs " {" ;; nl)) (pseq (pseqs (pstmt (S lvl)) th)
       (pseq (pseqs (fun p => let '(ce, cb) := p in pseq (lift (wis lvl "} else if " ;; wre ce ;; wrs " {" ;; nl)) (pseqs (pstmt (S lvl)) cb)) elifs)
@@ -111,6 +124,21 @@ Fixpoint pstmt (lvl : nat) (s : stmt) {struct s} : PM :=
             (lift (wis lvl "}" ;; nl)))
   | SFor e b => pseq (lift (wis lvl "for " ;; wre e ;; wrs " {" ;; nl)) (pseq (pseqs (pstmt (S lvl)) b) (lift (wis lvl "}" ;; nl)))
   | SCall e => lift (call_plain lvl e)
+  | SCallB e b =>
+      (* writeTemplElementExpression (block form): the closure, the call with templ.WithChildren, then ClearChildren *)
+      fun st =>
+      let '(q, g) := st in
+      let v := S (vid g) in let cn := bs (P ++ "Var") ++ decn v in
+      let g := set_vid v g in
+      (pseq (lift (wi lvl (cn ++ bs (" := templruntime.GeneratedTemplate(func(" ++ P ++ "Input templruntime.GeneratedComponentInput) (" ++ P ++ "Err error) {")) ;; nl ;;
+                   wis (S lvl) (P ++ "W, ctx := " ++ P ++ "Input.Writer, " ++ P ++ "Input.Context") ;; nl ;;
+                   templ_buffer (S lvl) ;;
+                   wis (S lvl) "ctx = templ.InitializeContext(ctx)" ;; nl))
+      (pseq (pseqs (pstmt (S lvl)) b)
+            (lift (wis (S lvl) "return nil" ;; nl ;; wis lvl "})" ;; nl ;;
+                   wis lvl (P ++ "Err = ") ;; wre e ;; wr (bs ".Render(templ.WithChildren(ctx, " ++ cn ++ bs ("), " ++ P ++ "Buffer)")) ;; nl ;; err_handler lvl ;;
+                   wis lvl "ctx = templ.ClearChildren(ctx)" ;; nl)))) (q, g)
+  | SChildren => lift (fun g => (wi lvl (bs (P ++ "Err = ") ++ cvar g ++ bs (".Render(ctx, " ++ P ++ "Buffer)")) ;; nl ;; err_handler lvl) g)
   end.
 Definition print_frag (lvl : nat) (p : list stmt) : M := fun g => snd (pseqs (pstmt lvl) p ([], g)).
 
@@ -131,24 +159,34 @@ Definition frag_template (last : bool) (e : expr) (body : list stmt) : M :=
   wis 2 "return nil" ;; nl ;; wis 1 "})" ;; nl ;; wis 0 "}" ;; nl ;; (if last then skip else nl).
 
 (* a fragment-only file: Go blocks and templates whose bodies are in the fragment *)
-Inductive ffnode := FFGo (e : expr) | FFTempl (e : expr) (body : list nd).
+Inductive ffnode := FFGo (e : expr) | FFTempl (e : expr) (body : list nd) | FFOther (n : fnode).   (* FFOther: css / script template declarations, written by Gen.v itself *)
 Definition templ_names (f : file) : list bytes :=
   flat_map (fun n => match n with FTempl e _ => [callee_name (e_val e)] | _ => [] end) (f_nodes f).
-Definition to_frag_file (f : file) : option (list ffnode) :=
-  let is_t := fun n => existsb (beq n) (templ_names f) in
+(* known: which call expressions name a component the fragment knows, given the names of the file's templates *)
+Definition to_frag_file (known : list bytes -> bytes -> bool) (f : file) : option (list ffnode) :=
+  let ok := known (templ_names f) in
   opt_list (map (fun n => match n with
                           | FGo e => Some (FFGo e)
-                          | FTempl e ch => option_map (FFTempl e) (to_frag_body is_t ch)
-                          | _ => None end) (f_nodes f)).
+                          | FTempl e ch => option_map (FFTempl e) (to_frag_body ok ch)
+                          | other => Some (FFOther other) end) (f_nodes f)).
+(* the text tie does not depend on what the callees are *)
+Definition any_call (_ : list bytes) (_ : bytes) : bool := true.
 Definition frag_table (l : list ffnode) : list (bytes * list nd) :=
-  flat_map (fun n => match n with FFTempl e b => [(callee_name (e_val e), b)] | FFGo _ => [] end) l.
+  flat_map (fun n => match n with FFTempl e b => [(callee_name (e_val e), b)] | _ => [] end) l.
+(* the generator needs only the escaping function of the oracles *)
+Definition frag_orc : oracles unit :=
+  Oracles unit hesc (fun _ _ => None) (fun _ _ => false) (fun _ _ => []) (fun _ _ => 0) (fun _ _ => []) (fun _ _ => []) (fun _ _ => [])
+          (fun _ _ => None) (fun _ _ => []) (fun _ _ => []) (fun _ _ => []) (fun _ _ _ => None) (fun _ => KUnknown) (fun u _ => u).
 Fixpoint write_ffnodes (l : list ffnode) : M :=
   match l with
   | [] => skip
   | n :: r =>
       (match n with
        | FFGo e => go_block e
-       | FFTempl e b => frag_template (is_nil r) e (coalesce (gens hesc b None))
+       | FFTempl e b => frag_template (is_nil r) e (coalesce (gens frag_orc b None))
+       | FFOther (Ast.FCss e name props) => write_css e name props
+       | FFOther (Ast.FScript name params value fn) => write_script name params value fn
+       | FFOther _ => skip
        end) ;; write_ffnodes r
   end.
 Definition frag_gen_all (f : file) (l : list ffnode) : M :=
@@ -162,7 +200,7 @@ Definition frag_gen_all (f : file) (l : list ffnode) : M :=
   wrs "var _ = templruntime.GeneratedTemplate".
 (* the Go text and the literal list of a fragment-only file; None: the file is outside the fragment *)
 Definition frag_generate (fn : bytes) (f : file) : option (bytes * list bytes) :=
-  match to_frag_file f with
+  match to_frag_file any_call f with
   | Some l =>
       let g := frag_gen_all f l {| w := rw0; vid := 0; cvar := []; fname := fn; adds := [] |} in
       Some (concat (rev (out (w g))), rev (lits (w g)))
